@@ -120,6 +120,35 @@ def folding_rule(index, rep, rid):
               "labels are folded with the single method %s at every site" % sorted(folds),
               "labels are case-folded with different methods at different sites (%s): the cached folded label and the folded query disagree for characters on which the methods differ, so a label no longer matches itself and duplicates are created" % {k: sorted(set(v)) for k, v in folds.items()})
 
+    # every access of a caseless map's storage with a caller-supplied key goes through the fold
+    nacc = 0
+    fold = sorted(folds)[0] if folds else "lower"
+    for q in caseless:
+        fi = index.functions[q]
+        params = [p_ for p_ in fi.params if p_ != "self"]
+        if not params:
+            continue
+
+        def folded(e):
+            return isinstance(e, ast.Call) and isinstance(e.func, ast.Attribute) and e.func.attr in ("lower", "casefold") and isinstance(e.func.value, ast.Name)
+
+        def bare(e):
+            return isinstance(e, ast.Name) and e.id in params[:1]
+        sites = []
+        for n in walk_no_nested(fi.node):
+            if isinstance(n, ast.Subscript) and norm(n.value) == "self._store":
+                sites.append((n, n.slice))
+            elif isinstance(n, ast.Compare) and len(n.ops) == 1 and isinstance(n.ops[0], (ast.In, ast.NotIn)) and norm(n.comparators[0]) in ("self._store", "self"):
+                sites.append((n, n.left))
+            elif isinstance(n, ast.Call) and isinstance(n.func, ast.Attribute) and n.args and (norm(n.func.value) == "self._store" or norm(n.func.value).startswith("super(")) and n.func.attr in ("get", "pop", "setdefault", "__getitem__", "__setitem__", "__delitem__", "__contains__"):
+                sites.append((n, n.args[0]))
+        for n, k in sites:
+            if not (bare(k) or folded(k)):
+                continue
+            nacc += 1
+            rep.check(folded(k), rid, fi.qualname, "storage accessed with the unfolded key: " + norm(n)[:50], fn_where(fi, n), "%s.%s folds the key before touching the storage" % (fi.cls.name if fi.cls else "?", fi.name),
+                      "%s reaches the map's storage with the caller's key as given (`%s`): the storage is keyed by folded labels, so a probe that differs from its own folded form (any upper-case letter) is reported absent although the label is a member - label lookups through label_taxon_map() and the NEXUS symbol mapper then disagree with the namespace" % (fi.qualname, norm(n)[:60]))
+    rep.floor(rid, "keyed storage accesses in the caseless maps", 8, nacc)
 
 
 def index_state_rules(index, rep, remap):
